@@ -2,7 +2,7 @@
    Model.v = gix-mailmap (after fix 44459dddd), Spec.v = git 2.39 mailmap.c. *)
 From Coq Require Import Arith List.
 From GixV.Base Require Import Bytes BytesFacts Outcome.
-From GixV.C53 Require Import Model Spec ProofsSearch ProofsVec ProofsMap ProofsTop.
+From GixV.C53 Require Import Model Spec ProofsSearch ProofsVec ProofsMap ProofsTop ProofsParse.
 Import ListNotations.
 
 (* 1. core's binary_search_by (the Rust 1.95 loop) on any probe that is Less on [0,p), Equal on
@@ -123,9 +123,38 @@ Proof.
   split; [vm_compute; reflexivity|]. vm_compute. discriminate.
 Qed.
 
+(* 9. The line parsers agree outside the parser-level known classes.  gix sees the line [l] without
+      its terminator, git sees [l ++ w] where [w] is the terminator (nothing, LF, CR LF: any blanks).
+      For every line of plain bytes (ASCII without NUL, VT, FF: this excludes the classes nul-byte
+      and unicode-whitespace) whose trimmed form carries none of trailing-text,
+      email-edge-whitespace, empty-second-email ([line_known], judged on git's view of the line
+      like prop() does): a skipped line is skipped by git; an accepted line gives git exactly the
+      add_mapping arguments of the gix entry; a line gix rejects is without effect in git (nothing,
+      or an entry with neither name nor email).  Lines longer than fgets' buffer are out of scope
+      of a per-line statement (class line-over-1022-bytes). *)
+Theorem parse_is_git_except_known :
+  forall l w, all_plain l = true -> all_space w = true -> line_known (g_trim l) = false ->
+    match parse_raw_line l with
+    | None => g_read_line (l ++ w) = None
+    | Some (Ok en) => g_read_line (l ++ w) = Some (entry_args en)
+    | Some (Err _) => git_noop (g_read_line (l ++ w))
+    | _ => False
+    end.
+Proof. exact parse_line_is_git. Qed.
+Example parse_is_git_example :
+  let l := bs " Joe R <n@x>  J <a@x> " in
+  all_plain l = true /\ line_known (g_trim l) = false
+  /\ parse_raw_line l = Some (Ok (mkEntry (Some (bs "Joe R")) (Some (bs "n@x")) (Some (bs "J")) (bs "a@x"))).
+Proof. vm_compute. repeat split. Qed.
+(* class trailing-text at the parser level *)
+Theorem parse_is_git_refuted_trailing_text :
+  exists l, all_plain l = true /\ parse_raw_line l = Some (Err Unconsumed)
+    /\ g_read_line l = Some (Some (bs "Joe"), Some (bs "a@x"), None, None).
+Proof. exists (bs "Joe <a@x> trailing"). vm_compute. repeat split. Qed.
+
 (* The full statement of the property, at the level of the mailmap TEXT.  It is false (theorems 8
    and six further parser-level classes, see NOTES.md); what is proved is theorems 5-7 from the
-   parsed entries onwards, the parser level is only tested against git. *)
+   parsed entries onwards and theorem 9 per line. *)
 Definition resolve_full_statement : Prop :=
   forall text name email,
     exists s, from_bytes text = Ok s /\ resolve s name email = g_check_mailmap text name email.
